@@ -248,8 +248,9 @@ def plan_wire(pid, rng, quick):
                              "props": [], "mode": 0, "nodecode": True})
     # long unbounded-cardinality streams under the default (16-bit) limit: more than twice 65,535 distinct values in one
     # column, so that a dictionary that is widened or restarted instead of being dropped shows up on the wire
-    deep = [("logs", "body"), ("traces", "attr"), ("metrics", "attr"), ("logs", "attr"), ("traces", "name")]
-    for signal, col in (deep[:2] if quick else deep):
+    # (body and attribute values are 16-bit-declared dictionary columns, names and severity texts start with 8 bits)
+    deep = [("logs", "body"), ("traces", "name"), ("traces", "attr"), ("metrics", "attr"), ("logs", "attr"), ("logs", "sevtext"), ("metrics", "name")]
+    for signal, col in (deep[:3] if quick else deep):
         for d in ([""] if quick else ["", "16"]):
             o = {"dict": d} if d else {}
             plan.append({"id": "wire-deep/%s/%s/%s" % (signal, col, d or "default"), "signal": signal, "opts": o,
